@@ -8,11 +8,11 @@ PROPS = {"C11": dict(
         "Zrnt.Proofs.C11.inSubtree_eq_descendant",
         "Zrnt.Proofs.C11.closestToSlot_eq_linear",
         "Zrnt.Proofs.C11.unknown_reported",
-        "Zrnt.Proofs.C11.queries_total_unpruned",
-        "Zrnt.Proofs.C11.queries_after_prune_false",
+        "Zrnt.Proofs.C11.queries_total_quiet",
+        "Zrnt.Proofs.C11.Old.queries_after_prune_false",
         "Zrnt.Proofs.C11.getSlot_inSubtree_refine_partial",
     ],
-    modes=[dict(name="fc11", stateful=True, max_shrinks=4,
+    modes=[dict(name="fc11", stateful=True, max_shrinks=3,
                 nontrivial=_nontrivial(("chain", "closest", "canonat", "getslot", "insub", "search", "findhead", "nodes")))],
     level="proof",
     trusted_base=FC_TB,
